@@ -61,12 +61,14 @@ if [ $need_overlay = 1 ]; then
     fi
   fi
   export VERIF_INSTR=$mode VERIF_INSTR_REPORT="$ov/report.json"
-  if [ "$id" = C17 ]; then
+  racejob=
+  case "$id" in C17) racejob=C17RACE;; C01|C07|C10|C11) racejob=BUILDRACE;; esac
+  if [ -n "$racejob" ]; then
     # auxiliary free-running pass under the race detector (separate build: a
     # cooperative scheduler's hand-offs would blind it)
     mkdir -p .work/race
     if (cd harness && go build -race -tags $TAGS -o "$VERIF_DIR/.work/bin/verifcheck-race" ./cmd/verifcheck) 2>.work/race/build.log; then
-      VERIF_OUT="$VERIF_DIR/.work/race" GORACE="halt_on_error=0" timeout 900 ./.work/bin/verifcheck-race C17RACE "$tier" >.work/race/run.log 2>&1
+      VERIF_OUT="$VERIF_DIR/.work/race" GORACE="halt_on_error=0" timeout 900 ./.work/bin/verifcheck-race $racejob "$tier" >.work/race/run.log 2>&1
       export VERIF_RACE_LOG="$VERIF_DIR/.work/race/run.log"
     else
       echo "note: -race build unavailable, auxiliary pass skipped" >&2
